@@ -11,7 +11,7 @@ from hypothesis import strategies as st
 import eqsig
 
 from pbt import gen
-from pbt.core import clause, HarnessError
+from pbt.core import clause, enum_clause, HarnessError
 
 PROPERTY = "C16"
 CLAUSES = []
@@ -55,13 +55,20 @@ atexit.register(_cleanup)
 
 
 def _new_path():
+    """Users overwrite the same file over and over (re-exported records): two cases out of three re-use one of two fixed
+    paths of this process, so a path is saved, loaded, overwritten with another record and loaded again; one in three
+    gets a brand-new name."""
     _COUNT[0] += 1
     if not os.path.isdir(_BASE):
         os.makedirs(_BASE, exist_ok=True)
-    return os.path.join(_BASE, "p%d_%d.txt" % (os.getpid(), _COUNT[0]))
+    if _COUNT[0] % 3 == 0:
+        return os.path.join(_BASE, "p%d_%d.txt" % (os.getpid(), _COUNT[0]))
+    return os.path.join(_BASE, "p%d_reused_%d.txt" % (os.getpid(), _COUNT[0] % 3))
 
 
 def _remove(path):
+    if "_reused_" in path:
+        return  # overwritten by a later case; the directory is removed at exit
     try:
         os.remove(path)
     except OSError:
@@ -420,5 +427,45 @@ def one_sample(case, ctx):
         _save_object(ctx, path, case, arg)
         _array_level(ctx, path, model, case["dt"], what="save_signal -> load_values_and_dt")
         _object_level(ctx, path, model, case["dt"], case["m"], case["label"])
+    finally:
+        _remove(path)
+
+
+# ---------------------------------------------------------------------------
+# long records with lengths on and next to powers of two (block-wise writers / readers)
+
+
+def _block_enum(tier, shard, nshards):
+    ks = (12, 13, 14, 15) if tier == "quick" else (10, 11, 12, 13, 14, 15, 16, 17)
+    i = 0
+    for k in ks:
+        for j in (-1, 0, 1):
+            if i % nshards == shard:
+                yield {"n": 2 ** k + j, "seed": 100 + i, "dt": [0.01, 0.005, 1.5][i % 3]}
+            i += 1
+    for n in (3 * 2 ** 14, 5 * 2 ** 13, 40000) if tier == "thorough" else (3 * 2 ** 13,):
+        if i % nshards == shard:
+            yield {"n": n, "seed": 100 + i, "dt": 0.02}
+        i += 1
+
+
+@enum_clause(CLAUSES, "block-lengths", _block_enum,
+             rule="records of 2^k-1, 2^k, 2^k+1 samples, k = 12..15 (thorough 10..17) and a few multiples of 2^13 / 2^14: save_values_and_dt -> load_values_and_dt",
+             oracle="round trip against the rational model of the format's rounding (same n, dt, values)",
+             exhaustive_note="the listed lengths", quick_shards=4)
+def block_lengths(case, ctx):
+    n = case["n"]
+    seen = np.round(np.random.RandomState(case["seed"]).standard_normal(n) * 3.0, 4)
+    ctx.nt(True)
+    path = _new_path()
+    try:
+        ctx.lib(eqsig.save_values_and_dt, path, seen, case["dt"], "block %d" % n)
+        vals, dt = ctx.lib(eqsig.load_values_and_dt, path)
+        vals = np.asarray(vals)
+        ctx.check(vals.ndim == 1 and len(vals) == n, "%d points saved, loaded shape %s" % (n, vals.shape))
+        _check_dt(ctx, dt, case["dt"], "load_values_and_dt (n=%d)" % n)
+        ctx.close(vals, seen, 0.5e-6 * (1 + 1e-9) + 1e-12 * np.abs(seen), "loaded values vs saved values (n=%d)" % n)
+        sig = ctx.lib(eqsig.load_signal, path, astype="acc_sig")
+        ctx.check(sig.npts == n, "load_signal: npts %r for %d saved points" % (sig.npts, n))
     finally:
         _remove(path)
